@@ -62,11 +62,11 @@ DIMS = [
     ("fm", ["none", "mulch50", "mulch100", "bunds_default_zbund", "bunds_0.15m_water20", "sr_inhb", "cn_adj+20", "cn_adj-20"]),
     ("ffm", ["none", "mulch50", "bunds_0.10m"]),
     ("gw", ["none", "const_2.0", "const_0.8", "variable_cover", "variable_inside", "constant_multi"]),
-    ("iwc", ["FC", "WP", "SAT", "Pct50", "PctMix", "NumDepth", "PropDepth", "PctDepth"]),
+    ("iwc", ["FC", "WP", "SAT", "Pct50", "PctMix", "NumDepth", "PropDepth", "PctDepth", "PctDepthBelowProfile", "PropDepthAtBottom"]),
     ("co2", ["default", "const450", "const0", "const300", "const700", "custom_series"]),
-    ("planting", ["05/01", "01/01", "02/28", "03/01", "07/15", "10/01", "12/31"]),
+    ("planting", ["05/01", "01/01", "02/28", "03/01", "07/15", "10/01", "12/31", "auto_leap"]),
     ("window", ["full", "multi", "partial", "late_start", "no_season", "leap_start", "leap_end", "short_around_planting",
-                "end_on_planting_day", "end_day_before_planting", "decadal_co2_years"]),
+                "end_on_planting_day", "end_day_before_planting", "decadal_co2_years", "leap_harvest"]),
     ("off_season", [False, True]),
     ("ETadj", [1, 0]),
     ("PlantMethod", ["crop", 0, 1]),
@@ -124,12 +124,36 @@ def weather(seed, climate):
 
 
 # ----------------------------------------------------------------------------- row -> objects
+_AUTO = {}
+
+
+def planting_of(row):
+    """the row's planting date; 'auto_leap' = the date for which planting + maturity + 30 days (the latest harvest date the model derives
+    itself) falls on 29 February 2004 when counted from a planting in 2003 (calendar-day crops; others fall back to 05/01)"""
+    pl = row["planting"]
+    if pl != "auto_leap":
+        return pl
+    c = row["crop"]
+    if c not in _AUTO:
+        try:
+            from aquacrop import Crop
+            cr = Crop(c, planting_date="05/01")
+            if int(getattr(cr, "CalendarType", 1)) == 1 and float(getattr(cr, "MaturityCD", 0)) > 0:
+                P = dt.date(2004, 2, 29) - dt.timedelta(days=int(cr.MaturityCD + 30))
+                _AUTO[c] = "%02d/%02d" % (P.month, P.day)
+            else:
+                _AUTO[c] = "05/01"
+        except Exception:
+            _AUTO[c] = "05/01"
+    return _AUTO[c]
+
+
 def fmt(d):
     return "%04d/%02d/%02d" % (d.year, d.month, d.day)
 
 
 def window_of(row):
-    m, d = [int(x) for x in row["planting"].split("/")]
+    m, d = [int(x) for x in planting_of(row).split("/")]
     P = dt.date(BASE_YEAR, m, d)
     w = row["window"]
     D = dt.timedelta
@@ -157,6 +181,9 @@ def window_of(row):
         s, e = P, dt.date(P.year + 1, P.month, P.day)          # the window ends exactly on next year's planting day
     elif w == "end_day_before_planting":
         s, e = P, dt.date(P.year + 1, P.month, P.day) - D(1)
+    elif w == "leap_harvest":
+        s = dt.date(2003, P.month, P.day)                       # first planting in 2003: a derived harvest date can fall on 29 February 2004
+        e = s + D(500)
     elif w == "decadal_co2_years":
         s = dt.date(2013, P.month, P.day)                       # years that are not rows of the default CO2 table (decadal after 2010)
         e = s + D(400)
@@ -193,8 +220,8 @@ def build(row, seed):
             ckw[k] = row[k]
     if row["Determinant"] != "crop":
         ckw["Determinant"] = row["Determinant"]
-    crop = Crop(row["crop"], planting_date=row["planting"], **ckw)
-    src.append(f"crop = Crop({row['crop']!r}, planting_date={row['planting']!r}" + "".join(f", {k}={v!r}" for k, v in ckw.items()) + ")")
+    crop = Crop(row["crop"], planting_date=planting_of(row), **ckw)
+    src.append(f"crop = Crop({row['crop']!r}, planting_date={planting_of(row)!r}" + "".join(f", {k}={v!r}" for k, v in ckw.items()) + ")")
     # iwc
     L = list(range(1, nl + 1))
     iw = row["iwc"]
@@ -210,6 +237,10 @@ def build(row, seed):
         ia = ("Prop", "Depth", [0.3, 0.9], ["WP", "FC"])
     elif iw == "PctDepth":
         ia = ("Pct", "Depth", [0.1, 0.5, 1.1], [30, 70, 100])
+    elif iw == "PctDepthBelowProfile":
+        ia = ("Pct", "Depth", [0.5, 3.5], [40, 90])           # last point below the bottom of any (also a deepened) profile
+    elif iw == "PropDepthAtBottom":
+        ia = ("Prop", "Depth", [0.4, 1.2], ["WP", "FC"])      # last point exactly at the bottom of the default 1.2 m profile
     iwc = InitialWaterContent(*ia)
     src.append(f"iwc = InitialWaterContent{ia!r}")
     # irrigation
@@ -365,13 +396,14 @@ def run_row(job):
         extra = ""
         if fr is not None and fr.name == "read_model_parameters" and isinstance(exc, IndexError):
             s, e = window_of(row)
-            m, d = [int(x) for x in row["planting"].split("/")]
+            m, d = [int(x) for x in planting_of(row).split("/")]
             P = dt.date(s.year, m, d)
             if P < s:
                 P = dt.date(s.year + 1, m, d)
             extra = "|no-planting-date-in-window" if not P < e else "|planting-date-in-window"
-        if "1990/2/29" in msg:
-            extra = "|end-date-on-02-29"
+        if "/2/29" in msg:
+            s_, e_ = window_of(row)
+            extra = "|end-date-on-02-29" if (e_.month, e_.day) == (2, 29) else "|window-does-not-end-on-02-29"
         res["status"] = "fail"
         res["sig"] = f"exception|{type(exc).__name__}|{where}|{norm_msg(msg)}{extra}"
         res["detail"] = f"{type(exc).__name__}: {msg[:200]} at {where} line `{fr.line if fr else ''}`"
@@ -569,6 +601,11 @@ def main():
         for c, s, dzv in ex_spec:
             r = dict(DEFAULT_ROW)
             r.update(crop=c, soil=s, dz=dzv)
+            extra.append(r)
+        # hand-placed rows: the derived latest harvest date (planting + maturity + 30 days) falls on 29 February of the first season's year
+        for c in (["Barley", "Potato", "Wheat", "Tomato"] if quick else [c for c in CROPS if not c.endswith("GDD")]):
+            r = dict(DEFAULT_ROW)
+            r.update(crop=c, planting="auto_leap", window="leap_harvest")
             extra.append(r)
         cov, tot, missing = pair_stats(rows, skip_pairs=(("crop", "soil"),) if quick else ())
         jobs = [(i, r, a.seed, tmo) for i, r in enumerate(extra + rows)]
